@@ -618,6 +618,10 @@ class AbstractWalkModelDiGraph(ABC):
         utils.logger.info(f"{__name__}: solving...")
 
         # self.write_model(f"model-{self.id}.lp")
+        # Results cached from an earlier call of solve() do not belong to the model that is solved now
+        self._solution = None
+        self.edge_vars_sol = {}
+
         start_time = time.perf_counter()
         self.solver.optimize()
         self.solve_statistics[f"solve_time_ilp"] = time.perf_counter() - start_time
